@@ -113,6 +113,7 @@ def match_known(prop, fam, c, rec):
 def check(fam, tier, seed, replay=None):
     prop = fam.prop
     t0 = time.time()
+    core.RUN_TIMEOUT = 600 if tier == "quick" else 3000
     st = core.prepare()
     rng = Rng(seed).fork(prop)
     problems = []
